@@ -165,12 +165,9 @@ class DataSet:
             frequencies = flip(frequencies)
             impedances = flip(impedances)
             if len(mask) > 0:
-                i: int
-                for i in range(0, frequencies.size):
-                    j: int = frequencies.size - 1 - i
-                    flag: bool = mask.get(i, False)
-                    mask[i] = mask.get(j, False)
-                    mask[j] = flag
+                # The indices in the mask refer to the data points in their
+                # original order.
+                mask = {frequencies.size - 1 - i: flag for i, flag in mask.items()}
 
         self.uuid: str = uuid or uuid4().hex
         self._path: str = path
